@@ -412,6 +412,13 @@ Section Refine.
     concat cs = concat cs' -> visible (decompress cs) = visible (decompress cs').
   Proof. intros H. rewrite !visible_of_obs. rewrite (chunking_independent_lemma cs cs' H). reflexivity. Qed.
 
+  Lemma chunking_independent_both_lemma cs cs' :
+    concat cs = concat cs' ->
+    obs (decompress cs) = obs (decompress cs') /\ visible (decompress cs) = visible (decompress cs').
+  Proof.
+    intros H. split; [exact (chunking_independent_lemma cs cs' H)|exact (chunking_independent_visible_lemma cs cs' H)].
+  Qed.
+
   (* the output never exceeds the buffer *)
   Lemma parse_from_cap l : forall a a', len (a_out a) <= cap -> parse_from a l = Ok a' -> len (a_out a') <= cap.
   Proof.
